@@ -6,7 +6,7 @@
    explicit parameters of the statements; nothing is assumed globally. *)
 From Coq Require Import List String NArith ZArith Bool Permutation.
 From GoMC Require Import Base.Bytes Base.Dec Gen.Consts Gen.Gate Model.C05 Model.C07 Model.C19_syntax Model.C19
-  Proofs.C07 Proofs.C19_net Proofs.C19_gate Proofs.C19_play Proofs.C19_disp Proofs.C19_expected Proofs.C19_skel Proofs.C19_reg Proofs.C19_skel_disp.
+  Proofs.C07 Proofs.C19_net Proofs.C19_gate Proofs.C19_play Proofs.C19_disp Proofs.C19_expected Proofs.C19_skel Proofs.C19_reg Proofs.C19_skel_disp Proofs.C19_close.
 Import ListNotations.
 Open Scope Z_scope.
 
@@ -142,6 +142,56 @@ Theorem C19_dispatch_bundle_atomic :
   handle_game fails e (o1 :: b) = ([], OEnd) /\
   handle_game fails e (o1 :: b ++ [o2]) = finish (handle_all fails e b) TEnd.
 Proof. exact bundle_atomic. Qed.
+
+(* ------------------------------------------------------------------ the peer stops *)
+(* The bot (join or ping, from ANY state b) against a peer that delivers ANY frames and then closes the
+   connection or fails (a cut inside a frame is the same event: a strict prefix of a frame makes
+   ReadPacket fail, C07): it always returns - at most bdepth b + 2 per frame + 1 steps - and it is then
+   in a state that does not wait for a packet (joined, done, a disconnect, or an error naming the
+   stage: bot_eof gives stLoginRead / stConfigRead / stStatusRead).  No hang at any cut point. *)
+Theorem C19_close_bot :
+  forall (c : bcfg) (b : bot) (inc : list frame), exists fuel : nat,
+  (fuel <= bdepth b + 2 * List.length inc + 1)%nat /\
+  bot_act c (snd (bot_feed c fuel b inc)) = AHalt.
+Proof. exact bot_always_returns. Qed.
+(* The server gate likewise, for every configuration (any registries), from any state: AcceptConn
+   returns (the connection is dropped; AcceptPlayer is not called on a read error in handshake, login
+   or configuration: srv_eof) after a bounded number of steps.  Other connections are other machines. *)
+Theorem C19_close_server :
+  forall (offline_uuid : list N -> list N) (c : scfg) (s : srv) (inc : list frame), exists fuel : nat,
+  (fuel <= srvdepth s + (List.length (sc_registries c) + 3) * List.length inc + 1)%nat /\
+  srv_act offline_uuid c (snd (srv_feed offline_uuid c fuel s inc)) = AHalt.
+Proof. exact srv_always_returns. Qed.
+(* The bot's queue-backed Conn when the connection fails after the packets `wire`: for EVERY scheduling of
+   the reader goroutine and of the calls of Conn.ReadPacket, what has been returned ++ what is queued ++
+   what is still to arrive = wire (order kept, nothing lost), and an error is returned only after every
+   packet that arrived has been returned (no lost tail) ... *)
+Theorem C19_close_conn :
+  forall (wire : list ppkt) (es : list qev),
+  let x := qrun wire es in
+  q_got x ++ q_recvq x ++ q_wire x = wire /\ ((q_errs x > 0)%nat -> q_got x = wire).
+Proof. exact conn_failure_delivers_all. Qed.
+(* ... and the error does arrive (no hang): once the reader has met the failure and the queue is drained
+   the next ReadPacket returns it, so HandleGame - which returns the first error of ReadPacket
+   (C19_dispatch_game: outcome OEnd after everything before it was dispatched) - returns *)
+Theorem C19_close_conn_reported :
+  forall (wire : list ppkt),
+  let es := repeat QReader (Datatypes.S (List.length wire)) ++ repeat QRead (Datatypes.S (List.length wire)) in
+  q_errs (qrun wire es) = 1%nat /\ q_got (qrun wire es) = wire.
+Proof. exact conn_failure_reported. Qed.
+(* in the source every ReadPacket of the gate and of the dispatcher is followed by `if err != nil { return
+   <error> }` with these results (rendered from the repository on every run) *)
+Theorem C19_close_error_returns :
+  read_error_return Gate.bot_join_login = Some "LoginErr{receiving,err}"%string /\
+  read_error_return Gate.bot_join_configuration = Some "ConfigErr{'config custom payload',err}"%string /\
+  read_error_return Gate.bot_ping_and_list = Some "nil,0,fmt.Errorf('bot: recv list packect fail: %v',err)"%string /\
+  read_error_return Gate.server_handshake = Some "0,0,err"%string /\
+  read_error_return Gate.server_accept_login = Some ""%string /\
+  read_error_return Gate.server_accept_list_ping = Some ""%string /\
+  read_error_return Gate.server_accept_config = Some "err"%string /\
+  read_error_return Gate.bot_handle_game = Some "err"%string /\
+  read_error_return Gate.bot_handle_bundle_packets = Some "err"%string.
+Proof. exact error_returns_in_source. Qed.
 
 (* ------------------------------------------------------------------ the registry packets *)
 (* Registry.WriteTo then Registry.ReadFrom: the same keys in the same id order with the same values,
@@ -386,6 +436,11 @@ Print Assumptions C19_dispatch_tables.
 Print Assumptions C19_dispatch_packet.
 Print Assumptions C19_dispatch_game.
 Print Assumptions C19_dispatch_bundle_atomic.
+Print Assumptions C19_close_bot.
+Print Assumptions C19_close_server.
+Print Assumptions C19_close_conn.
+Print Assumptions C19_close_conn_reported.
+Print Assumptions C19_close_error_returns.
 Print Assumptions C19_registry_roundtrip.
 Print Assumptions C19_skeleton_source.
 Print Assumptions C19_skeleton_ids.
